@@ -14,7 +14,7 @@ CHECKS = {
 }
 
 CHECKS["C01"] = dict(
-   technique="TLA+ spec LieCalc.tla/LieGroups.tla (exact rational group elements, matrix semantics) model-checked by TLC; every TLC state (operation, operands, exact expected matrix) replayed into the public cyecca.lie singletons",
+   technique="TLA+ spec LieCalc.tla/LieGroups.tla (exact rational group elements, matrix semantics) model-checked by TLC; every TLC state (operation, operands, exact expected matrix) replayed into the public cyecca.lie singletons; call histories (spec LieHistory.tla: which maker every group/operation sees first, order of operations and groups, equal-value makers) executed in fresh interpreters by harness/history.py",
    category="model_checking",
    text="TLC enumerates exact lattices of elements of all 12 singleton groups and 4 direct products (signed integer quaternions incl. 180 deg and both signs / shadow MRPs, Pythagorean angles, rational translations), proves homomorphism, inverse, identity, neutrality and associativity of the textbook semidirect formulas against the matrix semantics on every state, and hands each state to the real code: the matrix of the code's product/inverse/identity/from_Matrix result must equal the exact matrix product of the operands' matrices (two-sided, 1e-9).",
    design_ref="6/C01",
@@ -22,14 +22,14 @@ CHECKS["C01"] = dict(
 )
 
 CHECKS["C07"] = dict(
-   technique="TLA+ spec Convert.tla (conversion = identity on the signed integer quaternion + representative rule; Euler triples proved equal to Rz Ry Rx by TLC) model-checked by TLC; every state replayed into from_Quat/from_Mrp/from_Dcm/from_Euler/from_Matrix/shadow_if_necessary",
+   technique="TLA+ spec Convert.tla (conversion = identity on the signed integer quaternion + representative rule; Euler triples proved equal to Rz Ry Rx by TLC) model-checked by TLC; every state replayed into from_Quat/from_Mrp/from_Dcm/from_Euler/from_Matrix/shadow_if_necessary; call histories (spec LieHistory.tla: which maker every group/operation sees first, order of operations and groups, equal-value makers) executed in fresh interpreters by harness/history.py",
    category="model_checking",
    text="TLC enumerates all 12 ordered representation pairs, the 4 from-matrix entry points and the shadow switch over primitive integer quaternions of QLat(2) (quick) / QLat(3) (thorough) plus special cells: both signs, exactly 180 deg, near identity on both sides of -1, near 180 deg, exact gimbal poles, inside the 1e-3 band, just outside it, all four Shepperd branches (coverage-checked). The code's result must have the exact rational rotation matrix (1e-9; 2e-3 inside the documented band for Euler targets) and be a valid representative.",
    design_ref="6/C07",
    note="Trusted: harness/lie.py embedding. Not decided: irrational rotations between lattice points.",
 )
 CHECKS["C04"] = dict(
-   technique="TLA+ spec Adjoint.tla (Ad by matrix conjugation, ad/bracket by commutators, textbook closed forms proved equal by TLC, Jacobi/antisymmetry/homomorphism invariants) model-checked by TLC; every state replayed into Ad(), ad(), bracket, algebra to_Matrix",
+   technique="TLA+ spec Adjoint.tla (Ad by matrix conjugation, ad/bracket by commutators, textbook closed forms proved equal by TLC, Jacobi/antisymmetry/homomorphism invariants) model-checked by TLC; every state replayed into Ad(), ad(), bracket, algebra to_Matrix; call histories (spec LieHistory.tla: which maker every group/operation sees first, order of operations and groups, equal-value makers) executed in fresh interpreters by harness/history.py",
    category="model_checking",
    text="TLC computes Ad_X column-by-column as vee(Mat(X) E_k Mat(X)^-1) in exact rationals for all 12 singleton groups, ad_x and brackets as commutators for all 7 algebras and 3 direct sums, and proves on every state: closed-form block Ad = conjugation, Ad(XY)=Ad(X)Ad(Y), Ad(X^-1)Ad(X)=I, ad_x y=[x,y], antisymmetry, Jacobi. Each state is one two-sided test of the code (shape must be n_param x n_param, values within 1e-9).",
    design_ref="6/C04",
@@ -37,14 +37,14 @@ CHECKS["C04"] = dict(
 )
 
 CHECKS["C02"] = dict(
-   technique="TLA+ spec ExpLog.tla (half-angle algebra elements with exact quaternion exponentials, symbolic V-matrix V0+mu*V1 characterised by V[x]x=R-I and Vx=x, rational screw-form one-parameter subgroups) model-checked by TLC; every state replayed into LieAlgebraElement.exp for every algebra/group/representation",
+   technique="TLA+ spec ExpLog.tla (half-angle algebra elements with exact quaternion exponentials, symbolic V-matrix V0+mu*V1 characterised by V[x]x=R-I and Vx=x, rational screw-form one-parameter subgroups) model-checked by TLC; every state replayed into LieAlgebraElement.exp for every algebra/group/representation; call histories (spec LieHistory.tla: which maker every group/operation sees first, order of operations and groups, equal-value makers) executed in fresh interpreters by harness/history.py",
    category="model_checking",
    text="TLC enumerates algebra elements whose exponential is exactly representable: rotation vectors theta*v/|v| with theta = 2 atan2(|v|, w) for integer (w, v) (exactly 0, 5e-4 rad, both neighbours of both Taylor switches, 90/120/180 degrees, beyond pi up to 2 pi - 0.5 and, through integer multiples s*x, beyond 2 pi), translations in general form (expectation V0 rho + mu V1 rho with the single transcendental scalar mu supplied by the harness) and in screw form (expectation fully rational for every integer multiple). TLC proves the dexp characterisation of V, V V^-1 = I and the one-parameter-subgroup laws E(s)E(t)=E(s+t), E(0)=Id, E(-s)=E(s)^-1 on every point; the code's exp, exp(-x), inverse, exp((s+t)x) and exp(sx)exp(tx) must reproduce the exact matrices within 1e-9 for so(3)->quat/mrp/dcm/euler, se(3), se_2(3), so(2), se(2), r^n and two direct sums.",
    design_ref="6/C02",
    note="Trusted: embedding doubles nu=theta/sigma, mu=1/(theta*sigma) (self-tested against mpmath.expm, 40 digits, at every run). Not decided: angles not of rational half-angle type (dense countable subset only); Euler targets at an exact gimbal pole are excluded.",
 )
 CHECKS["C03"] = dict(
-   technique="TLA+ spec ExpLog.tla (principal representative, symbolic V^-1 = V0 + nu*W1 proven inverse of V by TLC) model-checked by TLC; every state replayed into LieGroupElement.log and the exp/log round trips in every representation and quaternion sign",
+   technique="TLA+ spec ExpLog.tla (principal representative, symbolic V^-1 = V0 + nu*W1 proven inverse of V by TLC) model-checked by TLC; every state replayed into LieGroupElement.log and the exp/log round trips in every representation and quaternion sign; call histories (spec LieHistory.tla: which maker every group/operation sees first, order of operations and groups, equal-value makers) executed in fresh interpreters by harness/history.py",
    category="model_checking",
    text="For every lattice rotation in all four SO(3) representations and both quaternion signs (hence shadow and non-shadow MRPs), with translations for SE(3)/SE_2(3)/SE(2), the code's log must equal the exact principal element (angle <= pi, translation V^-1 p in symbolic-nu form) within 1e-9, exp(log X) must have X's exact matrix, and log(exp x) = x for angles below pi. Representation independence follows because all representations are compared with the same exact vector.",
    design_ref="6/C03",
@@ -52,14 +52,14 @@ CHECKS["C03"] = dict(
 )
 
 CHECKS["C05"] = dict(
-   technique="TLA+ spec Jacobians.tla (so(3) closed forms in symbolic mu/nu proven by TLC to satisfy the dexp characterisation; se(3)/se_2(3) Jacobians characterised by J ad = Ad_exp - I and J k = k on ker ad with exact rational right-hand sides from screw-form elements; group-level quaternion kinematics as polynomial identities) model-checked by TLC; code Jacobians inserted into the exact equations",
+   technique="TLA+ spec Jacobians.tla (so(3) closed forms in symbolic mu/nu proven by TLC to satisfy the dexp characterisation; se(3)/se_2(3) Jacobians characterised by J ad = Ad_exp - I and J k = k on ker ad with exact rational right-hand sides from screw-form elements; group-level quaternion kinematics as polynomial identities) model-checked by TLC; code Jacobians inserted into the exact equations; call histories (spec LieHistory.tla: which maker every group/operation sees first, order of operations and groups, equal-value makers) executed in fresh interpreters by harness/history.py",
    category="model_checking",
    text="For so(3) the code's J_l, J_r and inverses are compared entry-wise with closed forms that TLC proves to be the unique solution of J[x]x = R - I, Jx = x (and J J^-1 = I, J_l = R J_r). For se(3) and se_2(3) no closed form is trusted: the code's matrices must satisfy J_l ad = Ad_exp - I, J_r ad = I - Ad_exp(-xi), J k = k on the kernel (consistency of the system proven by TLC), J J^-1 = I, J_l = Ad J_r, J_r(xi) = J_l(-xi), at angles from 5e-4 rad to 5.4 rad incl. both sides of the Taylor switch and beyond pi, and exactly zero (J = I +- ad/2). Group-level quaternion (body/world) and MRP Jacobians must give q' = 1/2 q(x)(0,w), R' = R[w]x resp. [w]x R (through casadi.jacobian of the code's own to_Matrix) and q.q' = 0, with the polynomial identities proven by TLC for all lattice quaternions.",
    design_ref="6/C05",
    note="A matrix identity covers all perturbation directions by linearity, but only at lattice points x. Trusted: embedding doubles nu, mu (mpmath self-test).",
 )
 CHECKS["C06"] = dict(
-   technique="TLA+ spec SmallAngle.tla (half-angle lattice with both integer neighbours of every Taylor/closed-form switch on six axes, dyadic second-order enclosures down to denormals, exact zero, generators at the identity) model-checked by TLC; states replayed into exp/log/Jacobians and their casadi.jacobian",
+   technique="TLA+ spec SmallAngle.tla (half-angle lattice with both integer neighbours of every Taylor/closed-form switch on six axes, dyadic second-order enclosures down to denormals, exact zero, generators at the identity) model-checked by TLC; states replayed into exp/log/Jacobians and their casadi.jacobian; call histories (spec LieHistory.tla: which maker every group/operation sees first, order of operations and groups, equal-value makers) executed in fresh interpreters by harness/history.py",
    category="model_checking",
    text="TLC generates, for six axes, the two integer half-angle neighbours of every switch point (theta=1e-3, theta/2=1e-3, theta^2=1e-3, theta^2/4=1e-3, |mrp|^2=1e-3) and a logarithmic ladder 1 rad .. 2e-4 rad with exact closed-form expectations (same records as C02/C03/C05), dyadic vectors 2^-12 .. 2^-1074 with the sound enclosure |f - f2| <= |x|^3, and exactly zero. The code must be within 1e-9 on both sides of each switch (so no jump > 2e-9), inside every enclosure, finite at zero, and its AD derivatives must be finite at/around zero with D exp(0) = generators, D(log o exp)(0) = I, J(0) = I, d/dx to_Matrix(exp x) = [J_l e_i]x R.",
    design_ref="6/C06",
